@@ -134,9 +134,9 @@ pub trait CtGreater: Sized {
     /// Check that the first element is lesser or equal to the second element in
     /// constant time and return the associated `Choice`
     ///
-    /// This is equivalent to calling `ct_gt` with the argument swapped
+    /// This is equivalent to negating the result of `ct_gt`
     fn ct_le(a: Self, b: Self) -> Choice {
-        Self::ct_gt(b, a)
+        Self::ct_gt(a, b).negate()
     }
 }
 
@@ -151,9 +151,9 @@ pub trait CtLesser: Sized {
     /// Check that the first element is greater or equal to the second element in
     /// constant time and return the associated `Choice`
     ///
-    /// This is equivalent of calling `ct_lt` with the argument swapped
+    /// This is equivalent to negating the result of `ct_lt`
     fn ct_ge(a: Self, b: Self) -> Choice {
-        Self::ct_lt(b, a)
+        Self::ct_lt(a, b).negate()
     }
 }
 
